@@ -256,6 +256,8 @@ class TB:
             return ("c", k["v"])
         if k.get("deref_v") is not None:
             return ("ref", ("c", k["deref_v"]))
+        if k.get("deref_array") is not None:
+            return ("ref", ("aggr", ("array",), tuple(("c", v) for v in k["deref_array"])))
         if k.get("deref_const") is not None:
             d = k["deref_const"]
             if "variant" in d:
